@@ -311,6 +311,9 @@ func loadKnown(id string) (known map[string]string) {
 // Main is the entry point of cmd/check.
 func Main(props map[string]*Prop) {
 	args := os.Args[1:]
+	if len(args) >= 1 && args[0] == "--probe" {
+		os.Exit(probeMain(args[1:]))
+	}
 	if len(args) < 2 {
 		fmt.Fprintln(os.Stderr, "usage: check <Cxx> <quick|thorough> | check <Cxx> --replay <file> | (internal) check <Cxx> <tier> --worker k n out prog [skip,...]")
 		os.Exit(2)
